@@ -5,7 +5,10 @@ use aws_lc_rs::digest::Digest;
 use aws_lc_rs::hmac::HMAC_SHA384;
 use aws_lc_rs::iv::FixedLength;
 use aws_lc_rs::pbkdf2::PBKDF2_HMAC_SHA384;
+#[cfg(not(paseto_verif))]
 use aws_lc_rs::rand::{SecureRandom, SystemRandom};
+#[cfg(paseto_verif)]
+use crate::verif::{SecureRandom, SystemRandom};
 use aws_lc_rs::{constant_time, hmac, pbkdf2};
 use paseto_core::PasetoError;
 use paseto_core::paserk::PwWrapVersion;
